@@ -395,6 +395,18 @@ class Gen:
         out.append(("application, no candidates", self.session([m("application", "0", cands=[], complete=False)])))
         out.append(("two audio, one video, application", self.session([m("audio", "0"), m("audio", "1", direction="recvonly"), m("video", "2"), m("application", "3")])))
         out.append(("no media", self.session([], bundle=False)))
+        # what createOffer() emits for a connection without transceivers / channels: a BUNDLE group without members
+        out.append(("no media, BUNDLE group without members", self.session([], bundle=True)))
+        sd = self.session([m("audio", "0")])
+        sd.msid_semantic = [self.mk("sdp.GroupDescription", semantic="WMS", items=[])]
+        out.append(("audio, msid-semantic without members", sd))
+        # nothing of the transport description is shared between unbundled sections
+        out.append(("unbundled sections with their own ICE credentials / roles / fingerprints / options",
+                    self.session([m("audio", "0", ufrag="aaaa", pwd="p" * 22, role="client", nfp=1, ice_options="trickle"),
+                                  m("video", "1", ufrag="bbbb", pwd="q" * 22, role="server", nfp=2, cands=[self.cand(ip="10.0.0.7")]),
+                                  m("application", "2", ufrag="cccc", pwd="r" * 22, role="auto", odd_fp=True, ice_options="renomination")], bundle=False)))
+        out.append(("bundled sections, second section with other credentials",
+                    self.session([m("audio", "0"), m("video", "1", ufrag="zzzz", pwd="s" * 24)])))
         return out
 
 
